@@ -153,6 +153,12 @@ package nsqd
 //@   ensures[exists] result != nil && atunlock(has(t.channelMap, channelName)) && atunlock(t.channelMap[channelName]) == result
 //@   modifies t.channelMap, mapstore(map[string]*Channel), dqCalls, kNotifies, kInitPQs, mapstore(map[MessageID]*Message), mapstore(map[MessageID]*pqueue.Item), Message.index, elems(*Message), elems(*pqueue.Item)
 //@   onreturn channelName == watchName && t == watchTopic ==> watchCreated := true
+//   the most recent GetChannel call: topic, name, result, and the number of Channel.doPause calls completed when it
+//   returned (ghosts declared in zz_contracts_gmeta_verif.go; grouped with watchCreated, so no frame changes)
+//@   onreturn gGotChanTopic := t
+//@   onreturn gGotChanName := channelName
+//@   onreturn gGotChan := result
+//@   onreturn gGotChanSawPauses := gChanPauseCalls
 
 // GetTopic.
 //  [existing-returned]    a known topic is returned as is and not started again;
@@ -185,6 +191,9 @@ package nsqd
 //@   onreturn gotTopicName := topicName
 //@   onreturn gotTopicAuthSeq := authCalls
 //@   onreturn gotTopicAuthOK := authOK
+//   the number of Topic.doPause / Topic.Start calls completed when this GetTopic returned (declared in zz_contracts_gmeta_verif.go; grouped with getTopicCalls)
+//@   onreturn gGotTopicSawPauses := gTopicPauseCalls
+//@   onreturn gGotTopicSawStarts := startCount
 //@   loop 0
 //@     invariant[names] channelNames == luNames
 //@     invariant[lucount] luCount == old(luCount) + 1
